@@ -246,6 +246,10 @@ func batchMain(c *Check, tier string) int {
 		if len(a.samples) < 3 && o.NonTrivial && len(o.Scenario) > 0 {
 			a.samples = append(a.samples, o.Scenario)
 		}
+		if o.Race != "" {
+			a.extra["race_reports"]++
+			o.Items = append(o.Items, raceItem(o.Race))
+		}
 		cl, su := classify(o, c.ID, kf)
 		seenKF := map[string]bool{}
 		for _, it := range o.Items {
@@ -370,8 +374,8 @@ func batchMain(c *Check, tier string) int {
 type crashResult struct {
 	unreproduced int
 	violations   int
-	harness    bool
-	kf         map[string]int
+	harness      bool
+	kf           map[string]int
 }
 
 func handleCrashes(c *Check, tier string, seed int, pool *Pool, crashes []*Outcome, kf *Findings) crashResult {
@@ -383,6 +387,33 @@ func handleCrashes(c *Check, tier string, seed int, pool *Pool, crashes []*Outco
 			kind = "hang"
 		}
 		if done[kind] {
+			continue
+		}
+		raceText := cr.Crashed
+		if !isRaceReport(raceText) && os.Getenv("GORACE") != "" {
+			// the dying worker's stderr may have been cut; a fresh worker on the same input shows whether it is the race again
+			if re := pool.Do(Request{Prop: c.ID, Tier: tier, Seed: cr.Seed}); isRaceReport(re.Crashed) {
+				raceText = re.Crashed
+			}
+		}
+		if isRaceReport(raceText) {
+			cr.Crashed = raceText
+			// a -race build: the testing package fails the bubble after a race report and the worker exits. The report itself is
+			// the evidence (the race detector has no false positives); the interleaving is not seeded, so no reproduction is demanded.
+			it := raceItem(cr.Crashed)
+			if done["race:"+it.Fields["frame"]] {
+				continue
+			}
+			done["race:"+it.Fields["frame"]] = true
+			if id := kf.Match(&it); id != "" {
+				res.kf[id]++
+				continue
+			}
+			rf := &ReplayFile{Property: c.ID, Clause: it.Clause, Tier: tier, Seed: cr.Seed, BatchSeed: seed, RepoRev: repoRev(),
+				Items: []Item{it}, Crash: it.Detail, Repro: "race detector report; the input replays by run-seed, the interleaving is the host scheduler's"}
+			path := writeReplay(rf)
+			fmt.Printf("VIOLATION property=%s replay=%s\n", c.ID, path)
+			res.violations++
 			continue
 		}
 		// confirm in a fresh worker
@@ -428,6 +459,29 @@ func handleCrashes(c *Check, tier string, seed int, pool *Pool, crashes []*Outco
 		res.violations++
 	}
 	return res
+}
+
+func isRaceReport(s string) bool {
+	return strings.Contains(s, "WARNING: DATA RACE") || strings.Contains(s, "Previous write at 0x") || strings.Contains(s, "Previous read at 0x")
+}
+
+// raceItem turns a Go race detector report into a C17 discrepancy; the first data-server frame identifies it.
+func raceItem(report string) Item {
+	if i := strings.Index(report, "WARNING: DATA RACE"); i >= 0 {
+		report = report[i:]
+	}
+	frame := "?"
+	for _, l := range strings.Split(report, "\n") {
+		t := strings.TrimSpace(l)
+		if strings.HasPrefix(t, "github.com/sdcio/data-server/pkg/") {
+			frame = t
+			if j := strings.LastIndex(frame, "("); j > 0 {
+				frame = frame[:j]
+			}
+			break
+		}
+	}
+	return Item{Prop: "C17", Clause: "C17.data-race", Fields: map[string]string{"frame": frame}, Detail: tail(report, 6000)}
 }
 
 func crashSignature(s string) string {
